@@ -14,10 +14,10 @@ theorem consts_ok_exit_consults_errors : Generated.EXIT_CONSULTS_ERRORS = true :
 theorem consts_ok_exit_consults_verification : Generated.EXIT_CONSULTS_VERIFICATION = true := by decide
 
 /-- Exit status 0 implies that the run was not refused and no planned operation failed. -/
-theorem exit_zero_clean (cfg : Cfg) (scan : List SEntry) (dst : Map DNode) (n : Nat)
-    (h : (run cfg scan dst n).exit = 0) :
-    (run cfg scan dst n).refused = false ∧ (run cfg scan dst n).errors = [] := by
-  unfold run at h ⊢
+theorem exit_zero_clean (cfg : Cfg) (flt : Faults) (scan : List SEntry) (dst : Map DNode) (n : Nat)
+    (h : (runF cfg flt scan dst n).exit = 0) :
+    (runF cfg flt scan dst n).refused = false ∧ (runF cfg flt scan dst n).errors = [] := by
+  unfold runF at h ⊢
   simp only at h ⊢
   split
   · rename_i hg; simp [hg] at h
@@ -25,20 +25,20 @@ theorem exit_zero_clean (cfg : Cfg) (scan : List SEntry) (dst : Map DNode) (n : 
     simp only [hg, Bool.false_eq_true, ↓reduceIte] at h
     refine ⟨rfl, ?_⟩
     simp only [List.reverse_eq_nil_iff]
-    by_cases he : (List.foldl (execTask cfg) (initExec dst n) (plan cfg scan dst)).b.errors.isEmpty = true
+    by_cases he : (List.foldl (execTask cfg flt) (initExec dst n) (plan cfg scan dst)).b.errors.isEmpty = true
     · simpa using he
     · simp [he] at h
 
 /-- Conversely any failed operation makes the exit status non-zero, whatever the error budget. -/
-theorem failure_exit_nonzero (cfg : Cfg) (scan : List SEntry) (dst : Map DNode) (n : Nat)
-    (h : (run cfg scan dst n).errors ≠ []) : (run cfg scan dst n).exit ≠ 0 := by
-  intro h0; exact h (exit_zero_clean cfg scan dst n h0).2
+theorem failure_exit_nonzero (cfg : Cfg) (flt : Faults) (scan : List SEntry) (dst : Map DNode) (n : Nat)
+    (h : (runF cfg flt scan dst n).errors ≠ []) : (runF cfg flt scan dst n).exit ≠ 0 := by
+  intro h0; exact h (exit_zero_clean cfg flt scan dst n h0).2
 
 /-- Reaching the error budget aborts with a non-zero status. -/
-theorem budget_abort (cfg : Cfg) (scan : List SEntry) (dst : Map DNode) (n : Nat)
-    (h : (run cfg scan dst n).aborted = true) : (run cfg scan dst n).exit ≠ 0 := by
+theorem budget_abort (cfg : Cfg) (flt : Faults) (scan : List SEntry) (dst : Map DNode) (n : Nat)
+    (h : (runF cfg flt scan dst n).aborted = true) : (runF cfg flt scan dst n).exit ≠ 0 := by
   apply failure_exit_nonzero
-  unfold run at h ⊢
+  unfold runF at h ⊢
   simp only at h ⊢
   split
   · rename_i hg; simp [hg] at h
